@@ -48,6 +48,7 @@ def kd(p):
 
 def observe(op, inp):
     try:
+        cobs.prelude()
         c = cr.DebianCopyright.from_text(inp[2])
         d1 = c.dumps()
         c2 = cr.DebianCopyright.from_text(d1)
